@@ -239,6 +239,8 @@ def run_check(prop_id, tier):
 
     # 1. committed regression cases + deterministic fixed cases (seconds)
     reg_files = sorted(glob.glob(os.path.join(VERIF, "regressions", prop_id, "*.case")))
+    if os.environ.get("VERIF_NO_REGRESSIONS"):      # mutation experiments: test the search, not the corpus
+        reg_files = []
     reg_run = 0
     for p in reg_files:
         with open(p) as fh:
